@@ -24,6 +24,27 @@ CHECKS = {
             "Trusted: brute-force distance search; the classification of an inconsistent atom (unregistered / stale / "
             "removed-still-registered) used to key known findings. Known findings cover only optimisation-phase "
             "(cell size 5) bookkeeping of LP / flip / water / alcoholic / carboxylic atoms.", "DESIGN.md#c14"),
+    "C08": ("exploration", "round-trip monitor: real formatter/print_pqr output re-read by independent column and token readers and by io.read_pqr",
+            "Every record written by the real Atom.get_pqr_string + main.print_pqr (4 flag combinations) and by "
+            "whole runs on hostile numberings is read back by an independent fixed-column reader, a plain token "
+            "reader and pdb2pqr's own reader and compared field by field at the property's tolerances; mismatches "
+            "are keyed by the one hostile feature the record carries and the field affected.",
+            "Trusted: the documented column layout (pqr.rst). Known findings: the six width/glue mechanisms in "
+            "known_findings.json; a mismatch in any other field, layout or feature is a violation.", "DESIGN.md#c08"),
+    "C17": ("exploration", "reference-model monitor (independent bounding box + grid arithmetic) and metamorphic header injection on the real Psize; text oracle on real --apbs-input output",
+            "Psize.run_psize on generated PQR files (both layouts, headers of every shape, extents to 8000 A, varied "
+            "sizing parameters) is compared with an independent bounding-box model: centre, enclosure of every atom "
+            "sphere by both boxes, fine <= coarse, 32k+1 >= 33, printed memory = 200*nx*ny*nz/2^20, result unchanged "
+            "by header lines; .in files from real runs must name the PQR just written.",
+            "Trusted: atom sphere = centre +- radius; coordinates fit the PQR columns; cfac > 1, fadd > 0.",
+            "DESIGN.md#c17"),
+    "C18": ("exploration", "differential monitor: generator-known DX truth vs independent cube reader around the real read_dx/write_cube/dx2cube",
+            "Random grids (shapes incl. every value count mod 6, skewed axes, extreme magnitudes, 1-6 values per DX "
+            "line, APBS trailer) are converted by the real code (API and dx2cube entry point) and the cube is parsed "
+            "by an independent reader: signed counts, origin/axes at %.6f, one atom line per PQR atom in order, "
+            "exactly nx*ny*nz values equal to the DX tokens at %.5E in the same order.",
+            "Trusted: the harness' DX writer follows the APBS layout; printed precision = the writer's own formats.",
+            "DESIGN.md#c18"),
 }
 
 NOT_APPLICABLE = {}
